@@ -371,9 +371,20 @@ func (g *genCtx) clampUint(t reflect.Type, x uint64) uint64 {
 	return x
 }
 
+// syntaxTokens: pieces that matter to an encoder that embeds strings in JSON text (escapes, quotes, HTML
+// characters json.Marshal escapes, look-alike escape sequences); strings are also built from these alone.
+var syntaxTokens = []string{"\\", "\\\\", "\"", "\\n", "\\t", "\\u0041", "\\d", "a", "b", "/", "<", ">", "&", "'", "{", "}", ":", ",", " ", "\t", "\x7f", "é", "C:\\tmp"}
+
 func (g *genCtx) str() []byte {
-	if rapid.IntRange(0, 2).Draw(g.t, "strKind") == 0 {
+	switch rapid.IntRange(0, 3).Draw(g.t, "strKind") {
+	case 0:
 		return []byte(interestingStrings[rapid.IntRange(0, len(interestingStrings)-1).Draw(g.t, "istr")])
+	case 1:
+		var sb strings.Builder
+		for i := rapid.IntRange(1, 6).Draw(g.t, "nTok"); i > 0; i-- {
+			sb.WriteString(syntaxTokens[rapid.IntRange(0, len(syntaxTokens)-1).Draw(g.t, "tok")])
+		}
+		return []byte(sb.String())
 	}
 	s := rapid.StringN(0, 12, -1).Draw(g.t, "str")
 	if !utf8.ValidString(s) {
